@@ -38,6 +38,11 @@ def gen_layout(rng, style):
         w = rng.choice([1, 1, 2, 3, 6, 11, 19, 40])
         cols['col_%02d' % i] = {'start': pos, 'end': pos + w}
         pos += w
+    if rng.random() < 0.5:
+        # the order in which a caller lists the columns is the CSV column order, not necessarily the positional order
+        keys = list(cols)
+        rng.shuffle(keys)
+        cols = {k: cols[k] for k in keys}
     return cols
 
 
